@@ -533,7 +533,114 @@ def gen_rdr_rtu(r, n, tier):
         yield f"rdr {d} {decode_tok(r)} {chunks_tok(chunkings(r, s))}"
 
 
+def dur_tok(ns):
+    return f"{ns // 10**9}:{ns % 10**9}"
+
+
+def gen_retry(r, n, tier):
+    dmax = (2**64 - 1) * 10**9 + 999999999
+    specials = [0, 1, 999999999, 10**9, 2 * 10**9, 60 * 10**9, 2**63 * 10**9, (2**64 - 1) * 10**9, dmax,
+                dmax // 2, dmax // 2 + 1]
+    for mn in specials:
+        for mx in specials:
+            yield f"retry {dur_tok(mn)} {dur_tok(mx)} fffdfrfffffff"
+    for _ in range(n):
+        if r.chance(1, 8):
+            mn, mx = r.pick(specials), r.pick(specials)
+        else:
+            mn = r.pick([r.below(10**4), r.below(10**10), r.below(10**12)])
+            mx = r.pick([mn, mn + r.below(10**11), r.below(10**10), mn * r.rng(1, 1000)])
+        ops = "".join(r.pick("ffffdr") for _ in range(r.rng(1, 80)))
+        yield f"retry {dur_tok(mn)} {dur_tok(mx)} {ops}"
+
+
+def gen_trk(r, n, tier):
+    for m in range(0, 5):
+        # exhaustive short op sequences over {add, remove small id}
+        alphabet = ["a", "r0", "r1", "r2"]
+        depth = 5 if tier == "thorough" else 4
+        for k in range(1, depth + 1):
+            for ops in itertools.product(alphabet, repeat=k):
+                yield f"trk {m} {','.join(ops)}"
+    for _ in range(n):
+        m = r.pick([0, 1, 2, 3, 4, 8, 100])
+        ops = []
+        added = 0
+        for _ in range(r.rng(1, 60)):
+            if r.chance(3, 5) or added == 0:
+                ops.append("a")
+                added += 1
+            else:
+                ops.append(f"r{r.below(added + 2)}")
+        yield f"trk {m} {','.join(ops)}"
+
+
+def filter_string(r):
+    def field():
+        k = r.below(36)
+        if k < 10:
+            return "*"
+        if k < 33:
+            return str(r.pick([0, 1, 9, 10, 99, 100, 127, 199, 200, 249, 250, 254, 255, r.below(256)]))
+        return r.pick(["256", "257", "300", "999", "1000", "00", "007", "0255", "0000000255", "0256", "+1",
+                       "+255", "+256", "+", "-", "-0", "-1", "", " ", " 1", "1 ", "**", "*1", "1*", "a", "0x10",
+                       "1e1", "\u0663", "\uff11", "１２", "1.", "٣", "255 ", "\t1", "+-1", "++1", "1_0"])
+    nf = r.pick([4] * 16 + [3, 5, 0, 1, 2, 6])
+    sep = "." if r.chance(39, 40) else r.pick([",", ":", "..", " ."])
+    st = sep.join(field() for _ in range(nf))
+    if r.chance(1, 40):
+        st = r.pick([".", "...", "....", "", "*", "*.*.*", "*.*.*.*.", ".*.*.*.*"])
+    return st.encode("utf-8").decode("unicode_escape", errors="ignore").encode("utf-8", errors="ignore") \
+        if "\\u" in st else st.encode("utf-8")
+
+
+def gen_flt(r, n, tier):
+    fixed = ["172.17.20.*", "*.*.*.*", "1.2.3.4", "255.255.255.255", "0.0.0.0", "256.1.1.1", "1.2.3", "1.2.3.4.5",
+             "", "*", "+1.02.3.4", "1.2.3.-4", "1..2.3", "1.2.3.", ".1.2.3", " 1.2.3.4", "1.2.3.4 ", "*.*.*.**",
+             "٣.1.1.1", "１.1.1.1", "1.1.1.0000000255", "1.1.1.+0", "1.1.1.+"]
+    for f in fixed:
+        yield f"flt {hx(f.encode('utf-8'))}"
+    for _ in range(n):
+        yield f"flt {hx(filter_string(r))}"
+
+
+def gen_fltm(r, n, tier):
+    octs = [0, 1, 127, 128, 254, 255]
+    peers = ["127.0.0.1", "127.0.0.2", "127.1.2.3", "10.0.0.1", "255.255.255.255", "0.0.0.0", "::1", "fe80::1",
+             "::ffff:127.0.0.1"]
+    # boundary lattice: every pattern over {*, o} per field x peers built from the same octets
+    for pat in itertools.product(["*", "0", "127", "255"], repeat=4):
+        w = ".".join(pat)
+        for peer in (["127.0.0.1", "255.255.255.255", "0.0.0.0", "127.255.0.127", "::1"] if tier != "thorough"
+                     else [".".join(map(str, p)) for p in itertools.product([0, 127, 255], repeat=4)] + ["::1"]):
+            yield f"fltm w{hx(w.encode())} {peer}"
+    for peer in peers:
+        yield f"fltm any {peer}"
+        for x in peers:
+            yield f"fltm x{x} {peer}"
+        yield f"fltm s127.0.0.1/::1/10.0.0.1 {peer}"
+        yield f"fltm s {peer}"
+    for _ in range(n):
+        peer = ".".join(str(r.pick(octs + [r.below(256)])) for _ in range(4)) if r.chance(5, 6) else r.pick(["::1", "fe80::1"])
+        k = r.below(4)
+        if k == 0:
+            f = "w" + hx(filter_string(r))
+        elif k == 1:
+            parts = peer.split(".") if "." in peer else ["1", "2", "3", "4"]
+            w = ".".join(p if r.chance(1, 2) else r.pick(["*", str(r.below(256))]) for p in parts)
+            f = "w" + hx(w.encode())
+        elif k == 2:
+            f = "x" + (peer if r.chance(1, 2) else r.pick(peers))
+        else:
+            f = "s" + "/".join(r.pick(peers + [peer]) for _ in range(r.below(5)))
+        yield f"fltm {f} {peer}"
+
+
 SUITES = {
+    "retry": gen_retry,
+    "trk": gen_trk,
+    "flt": gen_flt,
+    "fltm": gen_fltm,
     "rdr_rtu": gen_rdr_rtu,
     "range": gen_range,
     "crc": gen_crc,
